@@ -2180,7 +2180,8 @@ def eval_two(ctx, cases):
     excl = sorted(META_EXCLUDE)
     live = []
     for case in cases:
-        co = eval_one_two(ctx, case, excl)
+        co = eval_one_peers(ctx, case, excl) if case.get('peers') else \
+            eval_one_sym(ctx, case, excl) if case.get('sym') else eval_one_two(ctx, case, excl)
         try:
             live.append((co, next(co)))
         except StopIteration:
@@ -2628,6 +2629,782 @@ def two_directed_cases():
     return cases
 
 
+# ---------------------------------------------------------------------------------------
+# symmetric composition (case kind `two` with 'sym': True): `cvdriver node2` executes CV.Node.ns_step - both ends of ONE
+# connection originate calls at the same time: end A = client protocol P2, end B = server-mode protocol P0.  Each
+# direction has one byte stream (calls of the writer and its answers to the peer's calls, in write order), cut
+# per scenario.  Send firewalls of both ends are part of the scenario.
+#
+# case = {'kind': 'two', 'sym': True, 'callsA': [...], 'callsB': [...], 'behA': [...], 'behB': [...] (behX: handlers
+#         run on end X), 'fw': {'sa','ra','sb','rb'}, 'steps': [[side, 'send'] | [side, 'del', n] | [side, 'ans', id] |
+#         [side, 'poll', id]]}; side 'a' | 'b' = the end that acts (`del`: it reads the next <= n bytes its peer wrote)
+# ---------------------------------------------------------------------------------------
+
+SYM_P = {'a': 2, 'b': 0}
+SYM_PEER = {'a': 'b', 'b': 'a'}
+
+
+def sym_as_two(case):
+    return dict(case, conns=[{'calls': case['callsA'], 'beh': case['behB'], 'fw': case.get('fw') or {}}])
+
+
+def run_sym_impl(case):
+    import random
+    from circuits import Event
+    from circuits.core import Value
+    base = set(dir(Event())) | BASE_EXTRA
+    rng = random.Random(case.get('seed', 0))
+    c2 = sym_as_two(case)
+    if case.get('backend') == 'node':
+        w = NodeWorld(two_fw(c2), make_app2(), 1)
+    else:
+        w = World(two_fw(c2), app_cls=make_app2())
+    records = {'a': [], 'b': []}
+
+    def on_call(event):
+        sock = event.__dict__.get('node_sock')       # server side: the connection's socket; client side: no socket
+        side = 'b' if isinstance(sock, (str, SockDouble)) else 'a'
+        recs = records[side]
+        k = len(recs)
+        behs = case['beh' + side.upper()]
+        rec = {'side': side, 'k': k, 'id': event.__dict__.get('node_call_id'), 'released': False,
+               'beh': behs[k] if k < len(behs) else {'ret': None, 'sets': {}}, 'event': event, 'logged': False}
+        recs.append(rec)
+        return rec
+    for app in w.apps:
+        app.on_call = on_call
+    own = {x: getattr(w.proto(SYM_P[x]), 'channel', 'node') for x in 'ab'}
+    out = {'a': b'', 'b': b''}                  # written by that end, not yet read by its peer
+    todo = {'a': list(case['callsA']), 'b': list(case['callsB'])}
+    gens = {}                                   # (side, id) -> [generator, event, state]
+    sent = {'a': [], 'b': []}                   # (id | None, spec, blocked-observation | None) per send step
+    reads = {0: [], 2: []}
+    steps, obs = [], []
+
+    def pending_table(x):
+        try:
+            evs = getattr(w.proto(SYM_P[x]), '_Protocol__events')
+            return [(cid, hasattr(ev, 'remote_finish'), ev.value.value if hasattr(ev, 'remote_finish') else None,
+                     getattr(ev, 'errors', None) if hasattr(ev, 'remote_finish') else None) for cid, ev in evs.items()]
+        except Exception:   # noqa: BLE001
+            return None
+
+    def sender(x, e):
+        if x == 'a':
+            return w.send(0, e)
+        if case.get('backend') == 'node':
+            return w.node_b.server.send(e, w.socks[0])
+        return w.proto(0).send(e)
+
+    for st in case['steps']:
+        x, kind = st[0], st[1]
+        ob = {'fires': [], 'aborted': False, 'yields': [], 'dead': None, 'blocked': None}
+        before = {q: pending_table(q) for q in 'ab'}
+        st2 = list(st)
+        if kind == 'send':
+            if todo[x]:
+                spec = todo[x].pop(0)
+                e = make_event(spec)
+                g = sender(x, e)
+                try:
+                    first = next(g)
+                except StopIteration:
+                    first = 'stop'
+                if first is None:
+                    ob['gen'] = (g, e, spec, None)
+                else:
+                    # the generator did not go to sleep: what is the caller resumed with, and does the generator end?
+                    what = 'stopped-at-once' if isinstance(first, str) else \
+                        ('empty-value' if isinstance(first, Value) and first.value is None and not first.errors else
+                         f'value:{getattr(first, "value", first)!r}')
+                    try:
+                        nxt = next(g)
+                        what += '+more:' + ('None' if nxt is None else 'value')
+                    except StopIteration:
+                        what += '+ended'
+                    except Exception as ex:   # noqa: BLE001
+                        what += f'+raised:{type(ex).__name__}'
+                    ob['gen'] = (g, e, spec, what)
+                w.drain_all()
+        elif kind == 'del':
+            peer = SYM_PEER[x]
+            n = two_cut(st[2], out[peer], rng)
+            st2[2] = n
+            seg, out[peer] = out[peer][:n], out[peer][n:]
+            reads[SYM_P[x]].append(seg)
+            ob['aborted'] = w.deliver(SYM_P[x], seg)
+        elif kind == 'ans':
+            rec = next((r for r in records[x] if not r['released'] and r['id'] == st[2]
+                        and isinstance(r['id'], int) and not isinstance(r['id'], bool)), None)
+            if rec is not None:
+                rec['released'] = True
+                m = w.managers[0 if x == 'b' else 1]
+                try:
+                    for _ in range(4):
+                        for task in list(m._tasks):
+                            if task[0] is rec['event']:     # only this handler (the senders' generators are polled by `poll`)
+                                m.processTask(*task)
+                except Exception as ex:   # noqa: BLE001
+                    w.dead = f'{type(ex).__name__}: {ex}'
+                w.drain_all()
+        elif kind == 'poll':
+            key = (x, st[2])
+            if key in gens and gens[key][2] == 'waiting':
+                g, e, _s = gens[key]
+                try:
+                    v = next(g)
+                    if v is not None:
+                        gens[key][2] = 'done'
+                        ob['yields'].append((x, st[2], v.value, getattr(e, 'errors', '<unset>')))
+                except StopIteration:
+                    gens[key][2] = 'stopped'
+                    ob['yields'].append((x, st[2], '<generator stopped>', None))
+                except Exception as ex:   # noqa: BLE001
+                    gens[key][2] = 'error'
+                    ob['yields'].append((x, st[2], f'<generator raised {type(ex).__name__}>', None))
+        ob['writes'] = {}
+        for p, ws in w.take_writes().items():
+            data = b''.join(ws)
+            side = 'b' if p == 0 else 'a' if p == 2 else f'p{p}'
+            if side in out:
+                out[side] += data
+            ob['writes'][side] = data
+        for q in 'ab':
+            for rec in records[q]:
+                if not rec['logged']:
+                    rec['logged'] = True
+                    rec['obs'] = event_obs(rec['event'], base)
+                    ob['fires'].append((q, rec['k'], rec['id'], rec['obs']))
+        for app in w.apps:
+            app.log.clear()
+        ob['resolved'] = {}
+        for q in 'ab':
+            now = pending_table(q)
+            if now is None or before[q] is None:
+                ob['resolved'][q] = None
+                continue
+            was = {cid for cid, fin, _v, _e in before[q] if fin}
+            ob['resolved'][q] = [(cid, v) for cid, fin, v, _er in now if fin and cid not in was]
+        if kind == 'send' and 'gen' in ob:
+            g, e, spec, what = ob.pop('gen')
+            data = ob['writes'].get(x, b'')
+            cid = None
+            for piece in data.split(DELIM)[:-1]:
+                try:
+                    pk = json.loads(piece.decode('utf-8'))
+                    if isinstance(pk, dict) and 'name' in pk:
+                        cid = pk.get('id')
+                except Exception:   # noqa: BLE001
+                    pass
+            if what is None:
+                gens[(x, cid)] = [g, e, 'waiting']
+            else:
+                ob['blocked'] = (x, what)
+            sent[x].append((cid, spec, what, bool(data)))
+        ob['dead'] = w.dead
+        steps.append(st2)
+        obs.append(ob)
+        if w.dead:
+            break
+    end = {'out': {q: len(out[q]) for q in 'ab'}, 'todo': {q: len(todo[q]) for q in 'ab'},
+           'pending': {q: pending_table(q) for q in 'ab'},
+           'running': {q: [r['id'] for r in records[q] if not r['released']] for q in 'ab'},
+           'fired': {q: len(records[q]) for q in 'ab'}, 'records': records, 'gens': gens, 'sent': sent, 'reads': reads,
+           'own': own}
+    w.close()
+    end['via_remote'] = getattr(w, 'via_remote', 0)
+    return steps, obs, end
+
+
+def parse_sym_answer(a):
+    d = {q: {'fires': [], 'w': b'', 'resolved': [], 'yields': [], 'blocked': 0} for q in 'ab'}
+    d['aborted'] = False
+    if a == 'nothing':
+        return d
+    for item in a.split(' ; '):
+        toks = item.strip().split()
+        kind = toks[0]
+        if kind == 'aborted':
+            d['aborted'] = True
+            continue
+        q, toks = toks[1], toks[2:]
+        if kind == 'fire':
+            cid, k = jdec_tokens(toks, 1)
+            ev, _ = jdec_tokens(toks, k)
+            d[q]['fires'].append((int(toks[0]), cid, ev))
+        elif kind == 'w':
+            d[q]['w'] += unhx(toks[0])
+        elif kind == 'resolve':
+            v, k = jdec_tokens(toks, 1)
+            d[q]['resolved'].append((int(toks[0]), v))
+        elif kind == 'yield':
+            vals, k = jdec_tokens(toks, 1)
+            er, _ = jdec_tokens(toks, k)
+            d[q]['yields'].append((int(toks[0]), vals, er))
+        elif kind == 'blocked':
+            d[q]['blocked'] += 1
+    return d
+
+
+def eval_one_sym(ctx, case, excl):
+    with ctx.guard(case, what='node endpoints (symmetric scenario)'):
+        steps, obs, end = run_sym_impl(case)
+    case = dict(case, steps=steps)
+    pre = ['excl ' + ' '.join(sx(n) for n in excl), 'conn 0'] + two_fw_ops(0, case.get('fw') or {})
+    for side in 'ab':
+        for spec in case['calls' + side.upper()]:
+            pre.append(f'scall {side} {jt(ev_to_j(spec))}')
+        for b in case['beh' + side.upper()]:
+            pre.append(f'sbeh {side} raise' if 'raise' in b else f"sbeh {side} ret {jt([b.get('ret'), b.get('sets', {})])}")
+    oracle = {}
+    for p in (0, 2):
+        total = b''.join(end['reads'][p])
+        if total:
+            ends, n = [], 0
+            for seg in end['reads'][p]:
+                n += len(seg)
+                ends.append(n)
+            for piece, ln in candidate_pieces(total, ends).items():
+                if ln is None:
+                    raise Unsupported()
+                oracle[ln] = True
+    for ob in obs:
+        for data in ob['writes'].values():
+            for piece in data.split(DELIM)[:-1]:
+                try:
+                    oracle[dknow_line(json.loads(piece.decode('utf-8')))] = True
+                except (ValueError, Unsupported):
+                    pass
+    body = [f'sstep {st[0]} {st[1]}' + (f' {st[2]}' if len(st) > 2 else '') for st in steps] + ['sdump']
+    rounds = 0
+    while True:
+        ops = pre + sorted(oracle) + body
+        answers = yield ops
+        head = len(ops) - len(body)
+        bad = [(o, a) for o, a in zip(ops[:head], answers[:head]) if a != 'ok']
+        if bad:
+            ctx.disagree(case, {'where': 'node2.sym.preamble', 'op': bad[0][0][:300], 'model': bad[0][1]})
+            ctx.case(case, validated=False)
+            return
+        ans = answers[head:]
+        need = next((a for a in ans if a.startswith('need')), None)
+        if need is None:
+            break
+        rounds += 1
+        if rounds > 40:
+            ctx.disagree(case, {'where': 'node2.sym.oracle', 'model': 'keeps asking: ' + need[:200]})
+            ctx.case(case, validated=False)
+            return
+        ln = dknow_line(jdec(need[6:])) if need.startswith('needd ') else oracle_line(unhx(need.split()[1]))
+        if ln is None:
+            raise Unsupported()
+        oracle[ln] = True
+    ok = True
+    violations = []
+
+    def differ(i, what, impl, model):
+        nonlocal ok
+        if ok:
+            ctx.disagree(case, {'where': f'node2.sym.{what}', 'step': i, 'op': body[i] if i < len(body) else 'sdump',
+                                'impl': str(impl)[:400], 'model': str(model)[:400]})
+        ok = False
+    for i, (st, ob, a) in enumerate(zip(steps, obs, ans)):
+        if a == 'bad-op':
+            differ(i, 'bad-op', '', a)
+            break
+        if ob['dead']:
+            violations.append((f'loop-killed(symmetric:{st[1]})', f'flush()/processTask raised {ob["dead"]} in step {i} {st}'))
+            break
+        m = parse_sym_answer(a)
+        for q in 'ab':
+            mq = m[q]
+            i_f = [(k, safe_canon(cid), safe_canon(ev)) for (qq, k, cid, ev) in ob['fires'] if qq == q]
+            m_f = []
+            for k, cid, ev in mq['fires']:
+                ev = dict(ev, success=True)
+                if not ev['channels']:
+                    ev['channels'] = [end['own'][q]]
+                m_f.append((k, safe_canon(cid), safe_canon(ev)))
+            if i_f != m_f:
+                differ(i, f'fires[{q}]', i_f, m_f)
+            iw = ob['writes'].get(q, b'')
+            if split_packets(iw) != split_packets(mq['w']):
+                differ(i, f'bytes[{q}]', iw[:200], mq['w'][:200])
+            if ob['resolved'][q] is not None:
+                i_r = sorted((cid, safe_canon(v)) for cid, v in ob['resolved'][q])
+                m_r = sorted((cid, safe_canon(v)) for cid, v in mq['resolved'])
+                if i_r != m_r:
+                    differ(i, f'resolved[{q}]', i_r, m_r)
+            i_y = [(cid, safe_canon(v), safe_canon(er)) for qq, cid, v, er in ob['yields'] if qq == q]
+            m_y = [(cid, safe_canon(vals[0]) if len(vals) == 1 else 'several:' + safe_canon(vals), safe_canon(er))
+                   for cid, vals, er in mq['yields']]
+            if i_y != m_y:
+                differ(i, f'yield[{q}]', i_y, m_y)
+            # the model's `blocked` = the generator yields one empty Value at once and ends
+            i_b = ob['blocked'][1] if ob['blocked'] and ob['blocked'][0] == q else None
+            m_b = 'empty-value+ended' if mq['blocked'] else None
+            if i_b != m_b:
+                differ(i, f'blocked[{q}]', i_b, m_b)
+        if any(k not in 'ab' for k in ob['writes']):
+            differ(i, 'bytes[other protocol]', sorted(ob['writes']), '')
+        if bool(ob['aborted']) != m['aborted']:
+            differ(i, 'aborted', ob['aborted'], m['aborted'])
+    if ok and not any(ob['dead'] for ob in obs) and len(obs) == len(steps):
+        a = ans[len(steps)]
+        t = a.split()
+        for q in 'ab':
+            try:
+                ix = {name: t.index(q + name) for name in ('todo', 'out', 'buf', 'nid', 'fired', 'blocked', 'pending', 'running')}
+                nxt = t.index('btodo') if q == 'a' else len(t)
+                pend = jdec(' '.join(t[ix['pending'] + 1:ix['running']]))
+                running = jdec(' '.join(t[ix['running'] + 1:nxt]))
+            except (ValueError, IndexError):
+                differ(len(steps), 'sdump', '', a)
+                break
+            impl_res = {'todo': end['todo'][q], 'out': end['out'][q], 'fired': end['fired'][q],
+                        'running': [safe_canon(x) for x in end['running'][q]],
+                        'blocked': sum(1 for _c, _s, what, _d in end['sent'][q] if what is not None)}
+            model_res = {'todo': int(t[ix['todo'] + 1]), 'out': int(t[ix['out'] + 1]), 'fired': int(t[ix['fired'] + 1]),
+                         'running': [safe_canon(x) for x in running], 'blocked': int(t[ix['blocked'] + 1])}
+            ip = end['pending'][q]
+            if ip is not None:
+                impl_res['pending'] = sorted((cid, fin, safe_canon(v) if fin else '-', safe_canon(er) if fin else '-') for cid, fin, v, er in ip)
+                model_res['pending'] = sorted((cid, fin, (safe_canon(vals[0]) if len(vals) == 1 else 'several') if fin else '-',
+                                               safe_canon(er) if fin else '-') for cid, fin, vals, er, _m in pend)
+            if impl_res != model_res:
+                differ(len(steps), f'residue[{q}]', impl_res, model_res)
+    violations += judge_sym(ctx, case, steps, obs, end)
+    seen = set()
+    for sig, what in violations:
+        if sig not in seen:
+            seen.add(sig)
+            ctx.violate(case, sig, what)
+    ctx.count('sym_calls_A_to_B', len(case['callsA']))
+    ctx.count('sym_calls_B_to_A', len(case['callsB']))
+    ctx.count('sym_steps', min(len(steps) // 5 * 5, 80))
+    for st in steps:
+        ctx.count('sym_step_kind', f'{st[0]}:{st[1]}')
+    ctx.count('two_kind', case.get('tag', 'symmetric'))
+    ctx.count('sym_backend', 'Node + Server + Client components' if case.get('backend') == 'node' else 'bare Protocol objects')
+    # both directions in flight at the same moment: a stream that carried calls and answers
+    for q in 'ab':
+        kinds = set()
+        for ob in obs:
+            for piece in ob['writes'].get(q, b'').split(DELIM)[:-1]:
+                try:
+                    pk = json.loads(piece.decode('utf-8'))
+                    kinds.add('call' if isinstance(pk, dict) and 'name' in pk else 'answer')
+                except ValueError:
+                    kinds.add('raw')
+        ctx.count('sym_stream_content', '+'.join(sorted(kinds)) or 'empty')
+    ctx.case(case, nontrivial=len(steps) > 4, validated=ok)
+
+
+def judge_sym(ctx, case, steps, obs, end):
+    """C19 on the symmetric scenario, judged on the implementation's own behaviour, per direction X -> Y: a call rejected by
+    X's send firewall is never written and its caller is resumed at once with the empty value (generator ends); accepted
+    calls are executed on Y exactly once, in order, never when Y's receive firewall rejects; the caller of call k of X is
+    resumed once, with the value the handler run on Y for *that* call returned - never with the result of Y's call k"""
+    out = []
+    f = case.get('fw') or {}
+    def pred(side):
+        return pure_pred({'0': {'send': f.get(side, [[], []]), 'recv': f.get(side, [[], []])}}, 0, 'send') if side in f \
+            else (lambda e: (True, None))
+    for i, (st, ob) in enumerate(zip(steps, obs)):
+        for k in ob['writes']:
+            if k not in 'ab' and ob['writes'][k]:
+                out.append(('symmetric-answer-on-other-connection', f'step {i} {st}: bytes written by protocol {k}'))
+    for x in 'ab':
+        y = SYM_PEER[x]
+        spred, rpred = pred('s' + x), pred('r' + y)
+        recs = end['records'][y]
+        written = []
+        for cid, spec, what, wrote in end['sent'][x]:
+            v, why = spred(make_event(spec))
+            ctx.count('sym_firewall_send', f'{x}: ' + ('no firewall' if ('s' + x) not in f else 'allowed' if v else f'rejected({why})'))
+            if not v:
+                if wrote:
+                    out.append((fw_sig('symmetric-sent-despite-firewall', why),
+                                f'end {x}: call {spec["name"]} rejected by the send firewall ({why}) was written'))
+                ctx.count('sym_blocked_caller', str(what))
+                if what is None:
+                    out.append(('symmetric-blocked-caller-left-waiting', f'end {x}: the generator of the blocked call {spec["name"]} went to sleep'))
+                elif what.startswith('stopped-at-once'):
+                    pass        # the generator ends without a value: nobody waits, nothing forged (differs from the model only)
+                elif not what.startswith('empty-value'):
+                    out.append(('symmetric-blocked-caller-forged-result', f'end {x}: the caller of the blocked call {spec["name"]} got {what}'))
+                elif not what.endswith('+ended'):
+                    out.append(('symmetric-blocked-caller-generator-continues', f'end {x}: blocked call {spec["name"]}: {what}'))
+            elif what is not None:
+                out.append(('symmetric-allowed-call-not-sent', f'end {x}: call {spec["name"]} passes the send firewall; send() answered {what}'))
+            if v and cid is not None:
+                written.append((cid, spec))
+        got_ids = [r['id'] for r in recs]
+        allowed, refused = [], {}
+        for cid, spec in written:
+            v, why = rpred(make_event(spec))
+            ctx.count('sym_firewall_recv', f'{y}: ' + ('no firewall' if ('r' + y) not in f else 'allowed' if v else f'rejected({why})'))
+            if v:
+                allowed.append(cid)
+            else:
+                refused[cid] = why
+                if cid in got_ids:
+                    out.append((fw_sig('symmetric-dispatched-despite-firewall', why), f'end {y}: call {cid} of {x} rejected by the receive firewall was dispatched'))
+        ids_sent = [c for c, _ in written]
+        if len(set(map(repr, ids_sent))) != len(ids_sent):      # (gaps are the model's business, not the property's)
+            out.append(('symmetric-call-id-reused', f'end {x} numbered its transmitted calls {ids_sent}: two calls in flight cannot be told apart'))
+        twice = sorted({c for c in got_ids if got_ids.count(c) > 1}, key=str)
+        if twice:
+            out.append(('symmetric-executed-twice', f'end {y}: calls {twice} of {x} were dispatched more than once'))
+        disp = [c for c in got_ids if c in allowed]
+        if not twice and disp != allowed[:len(disp)]:
+            out.append(('symmetric-executed-out-of-order', f'end {y}: dispatched {got_ids}, {x} sent (allowed) {allowed}'))
+        if any(c not in allowed and c not in refused for c in got_ids):
+            out.append(('symmetric-executed-unsent', f'end {y}: dispatched {got_ids}, {x} sent {ids_sent}'))
+        quiet = all(end['todo'][q] == 0 and end['out'][q] == 0 and not end['running'][q] for q in 'ab')
+        if x == 'a':
+            ctx.count('sym_end', 'at rest' if quiet else 'in flight')
+        if quiet and not twice and disp != allowed:
+            out.append(('symmetric-packet-dropped', f'end {y}: calls {[c for c in allowed if c not in got_ids]} of {x} were never dispatched'))
+        back = []
+        for ob in obs:
+            for piece in ob['writes'].get(y, b'').split(DELIM)[:-1]:
+                try:
+                    pk = json.loads(piece.decode('utf-8'))
+                except ValueError:
+                    continue
+                if isinstance(pk, dict) and 'value' in pk and 'name' not in pk:
+                    back.append(pk.get('id'))
+        for cid, spec in written:
+            n_res = sum(1 for z in back if z == cid and type(z) is type(cid))
+            ctx.count('sym_result_packets_per_call', min(n_res, 3))
+            if n_res > 1:
+                out.append(('symmetric-' + dup_sig(spec), f'{n_res} result packets travelled back to {x} for its call {cid}'))
+        yields = {}
+        for ob in obs:
+            for q, cid, v, er in ob['yields']:
+                if q == x:
+                    yields.setdefault(cid, []).append((v, er))
+        by_id = {}
+        for r in recs:
+            by_id.setdefault(r['id'], []).append(r)
+        mine = {}
+        for r in end['records'][x]:
+            mine.setdefault(r['id'], []).append(r)        # handlers run on x for y's calls (same id space!)
+        for cid, got in yields.items():
+            if len(got) > 1:
+                out.append(('symmetric-resumed-twice', f'end {x}: the caller of call {cid} was resumed {len(got)} times'))
+            v, er = got[0]
+            if isinstance(v, str) and v.startswith('<generator'):
+                out.append((f'symmetric-wrong-result({v.strip("<>").replace(" ", "-")})', f'end {x}: generator of call {cid}: {v}'))
+                continue
+            if cid in refused:
+                ctx.count('sym_result', 'empty answer of the peer firewall')
+                if v is not None or er is not False:
+                    out.append(('symmetric-wrong-result(rejected-call-got-a-result)', f'end {x}: call {cid} was rejected by the peer, the caller got {got[0]!r}'))
+                continue
+            rs = by_id.get(cid, [])
+            if len(rs) != 1:
+                continue
+            beh = rs[0]['beh']
+            if 'raise' in beh or not rs[0]['released']:
+                out.append(('symmetric-wrong-result(result-without-return)',
+                            f'end {x}: the caller of call {cid} was resumed with {got[0]!r} although its handler on {y} has not returned'))
+                continue
+            want_er = beh.get('sets', {}).get('errors', False) if 'errors' in beh.get('sets', {}) else False
+            ctx.count('sym_result', 'value of the handler')
+            if safe_canon(v) != safe_canon(beh.get('ret')):
+                other = mine.get(cid, [])
+                if other and safe_canon(v) == safe_canon(other[0]['beh'].get('ret')):
+                    out.append(('symmetric-ids-collide(result-of-the-peers-call-with-the-same-id)',
+                                f'end {x}: call {cid} got {v!r} = the result of the call {cid} that {y} made'))
+                else:
+                    out.append(('symmetric-wrong-result(value)', f'end {x}: call {cid} got {v!r}, its handler on {y} returned {beh.get("ret")!r}'))
+            elif safe_canon(er) != safe_canon(want_er):
+                out.append(('symmetric-wrong-result(error-flag)', f'end {x}: call {cid} got the error flag {er!r}, expected {want_er!r}'))
+        if quiet and case.get('closed'):
+            for (q, cid), (g, e, state) in end['gens'].items():
+                if q != x or state != 'waiting':
+                    continue
+                rs = by_id.get(cid, [])
+                if len(rs) == 1 and 'raise' in rs[0]['beh']:
+                    ctx.count('sym_result', 'no answer: handler raised')
+                    out.append(('no-answer(remote-handler-raised)', f'end {x}: call {cid} failed on the peer and the sender was never told'))
+                else:
+                    out.append(('symmetric-no-answer', f'end {x}: generator of call {cid} never got an answer'))
+    return out
+
+
+def gen_sym_beh(rng, side, n, raising):
+    beh = []
+    for k in range(n):
+        if rng.random() < raising:
+            beh.append({'raise': 1})
+        else:
+            sets = {}
+            r = rng.random()
+            if r < 0.12:
+                sets = {rng.choice(ATTR_KEYS): gen_value(rng, 1)}
+            elif r < 0.17:
+                sets = {'errors': rng.choice([True, 'E', 1])}
+            beh.append({'ret': rng.choice([['on', side, k, gen_value(rng, 1)], ['on', side, k], ['on', side, k], None, 0, f'{side}{k}~~~']), 'sets': sets})
+    return beh
+
+
+def gen_sym_case(rng, fwkind='none', raising=0.0, closed=True, tag='symmetric-random', na=None, nb=None):
+    na = rng.randint(1, 4) if na is None else na
+    nb = rng.randint(1, 4) if nb is None else nb
+    ek = 'none' if fwkind == 'none' else 'both'
+    callsA = [gen_two_event(rng, ek) for _ in range(na)]
+    callsB = [gen_two_event(rng, ek) for _ in range(nb)]
+    fw = {}
+    if fwkind != 'none':
+        sides = {'send': ['sa', 'sb'], 'recv': ['ra', 'rb'], 'both': ['sa', 'sb', 'ra', 'rb']}[fwkind]
+        for side in sides:
+            if rng.random() < 0.75:
+                fw[side] = gen_two_fw(rng, 'recv')['rb']
+    n = {'a': na, 'b': nb}
+    sent = {'a': 0, 'b': 0}
+    steps = []
+    for _ in range(rng.randint(4, 8 + 6 * (na + nb))):
+        x = rng.choice('ab')
+        r = rng.random()
+        if r < 0.25 and sent[x] < n[x]:
+            steps.append([x, 'send'])
+            sent[x] += 1
+        elif r < 0.6:
+            steps.append([x, 'del', rng.choice(TWO_MODES)])
+        elif r < 0.8:
+            steps.append([x, 'ans', rng.randrange(max(1, sent[SYM_PEER[x]]))])
+        else:
+            steps.append([x, 'poll', rng.randrange(max(1, sent[x]))])
+    if closed:
+        rest = [[x, 'send'] for x in 'ab' for _ in range(n[x] - sent[x])]
+        rng.shuffle(rest)
+        steps += rest
+        for _ in range(rng.randint(1, 3)):
+            steps += [[rng.choice('ab'), 'del', rng.choice(['half', 'in-delim-1', 'past-delim', 'two-packets-minus'])]]
+        steps += [['a', 'del', 10 ** 9], ['b', 'del', 10 ** 9]]
+        order = [(x, k) for x in 'ab' for k in range(n[SYM_PEER[x]])]
+        rng.shuffle(order)
+        for x, k in order:
+            steps.append([x, 'ans', k])
+            if rng.random() < 0.4:
+                steps.append([rng.choice('ab'), 'del', rng.choice(TWO_MODES)])
+        steps += [['a', 'del', 10 ** 9], ['b', 'del', 10 ** 9], ['a', 'del', 10 ** 9]]
+        polls = [(x, k) for x in 'ab' for k in range(n[x])]
+        rng.shuffle(polls)
+        steps += [[x, 'poll', k] for x, k in polls]
+    return {'kind': 'two', 'sym': True, 'tag': tag, 'callsA': callsA, 'callsB': callsB, 'behA': gen_sym_beh(rng, 'a', nb, raising),
+            'behB': gen_sym_beh(rng, 'b', na, raising), 'fw': fw, 'steps': steps, 'closed': closed, 'seed': rng.randint(0, 2 ** 30)}
+
+
+def sym_directed_cases():
+    """both ends call with the same ids at the same moment; every answer order; call and answer packets share each stream
+    and are cut inside packets / delimiters; a send firewall that blocks the middle call of each end"""
+    plain = lambda who, i: {'name': 'foo', 'args': [who, i], 'kwargs': {}, 'success': False, 'failure': False, 'notify': False,  # noqa: E731
+                            'channels': [], 'attrs': {}}
+    cases = []
+    for k in (1, 2):
+        for order in itertools.permutations([(x, i) for x in 'ab' for i in range(k)]):
+            for cut in ('all', 'in-delim-1', 'one'):
+                steps = [[x, 'send'] for _ in range(k) for x in 'ab']
+                steps += [['a', 'del', cut], ['b', 'del', cut]] * (3 if cut != 'one' else 1) + [['a', 'del', 10 ** 9], ['b', 'del', 10 ** 9]]
+                steps += [[x, 'ans', i] for x, i in order]
+                steps += [['a', 'del', cut], ['b', 'del', cut]] * (60 if cut == 'one' else 3) + [['a', 'del', 10 ** 9], ['b', 'del', 10 ** 9]]
+                steps += [[x, 'poll', i] for i in range(k) for x in 'ab']
+                cases.append({'kind': 'two', 'sym': True, 'tag': 'symmetric-same-ids', 'closed': True, 'seed': 12, 'steps': steps,
+                              'callsA': [plain('a', i) for i in range(k)], 'callsB': [plain('b', i) for i in range(k)],
+                              'behA': [{'ret': ['on-a', i], 'sets': {}} for i in range(k)],
+                              'behB': [{'ret': ['on-b', i], 'sets': {}} for i in range(k)], 'fw': {}})
+            if k == 2 and len(cases) > 40:
+                break
+    # answer of A to B's call 0 written between A's calls 0 and 1: the stream A->B is call, answer, call
+    steps = [['b', 'send'], ['a', 'send'], ['a', 'del', 10 ** 9], ['a', 'ans', 0], ['a', 'send'], ['b', 'del', 'two-packets-minus'],
+             ['b', 'del', 'in-delim-2'], ['b', 'del', 10 ** 9], ['b', 'ans', 1], ['b', 'ans', 0], ['a', 'del', 'half'], ['a', 'del', 10 ** 9],
+             ['a', 'poll', 0], ['a', 'poll', 1], ['b', 'poll', 0]]
+    cases.append({'kind': 'two', 'sym': True, 'tag': 'symmetric-mixed-stream', 'closed': True, 'seed': 13, 'steps': steps,
+                  'callsA': [plain('a', 0), plain('a', 1)], 'callsB': [plain('b', 0)],
+                  'behA': [{'ret': ['on-a', 0], 'sets': {}}], 'behB': [{'ret': ['on-b', i], 'sets': {}} for i in range(2)], 'fw': {}})
+    # the send firewalls block the middle call of each end: ids stay consecutive, nothing is written, the caller is resumed
+    fw = {'sa': [[], [], [dict(FW_RULES['args'], sel=['a', 1])]], 'sb': [[], [], [dict(FW_RULES['args'], sel=['a', 1])]]}
+    callsA = [plain('a', 1), plain('a', 5000), plain('a', 2)]
+    callsB = [plain('b', 5000), plain('b', 1)]
+    steps = [['a', 'send'], ['b', 'send'], ['a', 'send'], ['b', 'send'], ['a', 'send'], ['b', 'del', 'half'], ['b', 'del', 10 ** 9],
+             ['a', 'del', 10 ** 9], ['a', 'ans', 0], ['b', 'ans', 1], ['b', 'ans', 0], ['a', 'del', 10 ** 9], ['b', 'del', 10 ** 9],
+             ['a', 'poll', 0], ['a', 'poll', 1], ['a', 'poll', 2], ['b', 'poll', 0], ['b', 'poll', 1]]
+    cases.append({'kind': 'two', 'sym': True, 'tag': 'symmetric-send-firewall', 'closed': True, 'seed': 14, 'steps': steps,
+                  'callsA': callsA, 'callsB': callsB, 'behA': [{'ret': ['on-a', 0], 'sets': {}}],
+                  'behB': [{'ret': ['on-b', i], 'sets': {}} for i in range(2)], 'fw': fw})
+    return cases
+
+
+def sym_cases(ctx):
+    rng = ctx.rng
+    s = ctx.scale
+    cases = []
+    for c in sym_directed_cases():
+        cases.append(c)
+        cases.append(dict(c, backend='node'))
+    rnd = []
+    for _ in range(70 * s):
+        rnd.append(gen_sym_case(rng))
+    for i in range(70 * s):
+        rnd.append(gen_sym_case(rng, fwkind=['send', 'both', 'recv', 'send'][i % 4], tag='symmetric-firewall'))
+    for _ in range(20 * s):
+        rnd.append(gen_sym_case(rng, raising=0.4, tag='symmetric-raising'))
+    for _ in range(20 * s):
+        rnd.append(gen_sym_case(rng, closed=False, fwkind=rng.choice(['none', 'both']), raising=0.1, tag='symmetric-open'))
+    for i, c in enumerate(rnd):
+        cases.append(dict(c, backend='node') if i % 2 else c)
+    return cases
+
+
+# ---------------------------------------------------------------------------------------
+# a node that is the client of several servers, each of which calls it (case kind `two` with 'peers': True; real
+# `Node` + `Node.add` peers; every server end is a real server-mode Protocol with calls of its own in flight).  No model
+# run: the spec "the answer travels on the calling connection only / a waiting caller is resumed with the result of its
+# own call only" (`answer_on_calling_connection_only`, `n2_resultHandler`: sock = mine) is judged on the implementation.
+# case = {'npeers': k, 'calls': [n_0, …] (calls server j makes: foo(j, i), ids 0..n_j-1), 'deliver': [[j, i] …] (order in
+#         which call packets reach the node; the rest stays undelivered)}
+# ---------------------------------------------------------------------------------------
+
+def eval_one_peers(ctx, case, excl):
+    with ctx.guard(case, what='node with several client peers'):
+        out = run_peers_impl(case)
+    for sig, what in out['violations']:
+        ctx.violate(case, sig, what)
+    ctx.count('peers_connections', case['npeers'])
+    ctx.count('peers_delivered_of_sent', f"{len(case['deliver'])}/{sum(case['calls'])}")
+    ctx.count('peers_result_packets_on_other_connections', out['stray'])
+    ctx.count('two_kind', case.get('tag', 'symmetric-client-peers'))
+    ctx.case(case, nontrivial=len(case['deliver']) > 0, validated=True)
+    return
+    yield   # (a generator like eval_one_two: it never talks to the driver)
+
+
+def run_peers_impl(case):
+    import os
+    from circuits import Component, Event, Manager, handler
+    from circuits.core.pollers import BasePoller
+    from circuits.net.events import read
+    from circuits.node import Node
+    from circuits.node.protocol import Protocol
+
+    class PeerApp(Component):
+        channel = 'app'
+
+        def init(self):
+            self.writes = []
+            self.seen = []
+
+        @handler('write', channel='*', priority=50)
+        def _on_write(self, event, *a):
+            self.writes.append((tuple(event.channels), a))
+            event.stop()
+
+        @handler('connect', channel='*', priority=50)
+        def _on_connect(self, event, *a):
+            event.stop()
+
+        @handler(channel='*', priority=1000)
+        def _on_any(self, event, *args, **kwargs):
+            if 'node_call_id' in event.__dict__ and not any(event is x for x in self.seen):
+                self.seen.append(event)
+                return ['R'] + list(args)
+            return None
+
+    def drain(m):
+        for _ in range(100):
+            if not len(m):
+                return
+            m.flush()
+    k = case['npeers']
+    m = Manager()
+    app = PeerApp().register(m)
+    node = Node().register(m)
+    chans = [node.add(f's{j}', '127.0.0.1', 1, reconnect_delay=0) for j in range(k)]
+    drain(m)
+    app.writes.clear()
+    servers, gens, packets = [], {}, {}
+    managers = [m]
+    for j in range(k):
+        mj = Manager()
+        managers.append(mj)
+        aj = PeerApp().register(mj)
+        pj = Protocol(sock=f'S{j}', server=True, channel='node').register(mj)
+        drain(mj)
+        for i in range(case['calls'][j]):
+            e = type(Event)('foo', (Event,), {})(j, i)
+            e.channels = ('app',)
+            g = pj.send(e)
+            next(g)
+            drain(mj)
+            gens[(j, i)] = g
+            packets[(j, i)] = b''.join(a[-1] for _ch, a in aj.writes)
+            aj.writes.clear()
+        servers.append(pj)
+    violations, stray = [], 0
+    for j, i in case['deliver']:
+        m.fire(read(packets[(j, i)]), chans[j])
+        drain(m)
+        for ch, a in app.writes:
+            q = chans.index(ch[0]) if ch and ch[0] in chans else None
+            if q != j:
+                stray += 1
+                violations.append(('symmetric-answer-on-other-connection(client-side)',
+                                   f'the call {i} of server {j} was answered on connection {q}: {a[-1][:80]!r}'))
+            if q is not None:
+                servers[q].add_buffer(a[-1])
+        app.writes.clear()
+    delivered = {tuple(x) for x in case['deliver']}
+    for (j, i), g in gens.items():
+        try:
+            v = next(g)
+        except StopIteration:
+            v = 'stopped'
+        if (j, i) not in delivered:
+            if v is not None:
+                violations.append(('symmetric-forged-result(undelivered-call)',
+                                   f'server {j}: its call {i} never reached the node, its caller was resumed with {getattr(v, "value", v)!r}'))
+        elif v is None:
+            violations.append(('symmetric-no-answer', f'server {j}: call {i} was delivered and handled, no result came back'))
+        elif getattr(v, 'value', v) != ['R', j, i]:
+            violations.append(('symmetric-wrong-result(value)', f'server {j}: call {i} got {getattr(v, "value", v)!r}'))
+    for mm in managers:
+        for c in list(mm.components) + [x for c in mm.components for x in _walk(c)]:
+            sk = getattr(c, '_sock', None)
+            if sk is not None and hasattr(sk, 'close'):
+                try:
+                    sk.close()
+                except Exception:   # noqa: BLE001
+                    pass
+            if isinstance(c, BasePoller):
+                for fd in (c._ctrl_recv, c._ctrl_send):
+                    try:
+                        os.close(fd) if isinstance(fd, int) else fd.close()
+                    except Exception:   # noqa: BLE001
+                        pass
+    seen = set()
+    return {'violations': [v for v in violations if not (v[0] in seen or seen.add(v[0]))], 'stray': stray}
+
+
+def peers_cases(ctx):
+    rng = ctx.rng
+    cases = [{'kind': 'two', 'peers': True, 'tag': 'symmetric-client-peers', 'npeers': 2, 'calls': [1, 1], 'deliver': [[0, 0]]},
+             {'kind': 'two', 'peers': True, 'tag': 'symmetric-client-peers', 'npeers': 3, 'calls': [2, 2, 1], 'deliver': [[1, 0], [0, 0], [1, 1]]}]
+    for _ in range(12 * ctx.scale):
+        k = rng.choice([2, 2, 3])
+        calls = [rng.randint(1, 3) for _ in range(k)]
+        every = [[j, i] for j in range(k) for i in range(calls[j])]
+        # per connection in order (a byte stream), connections interleaved, a random part stays undelivered
+        order = sorted(every, key=lambda ji: (ji[1] + rng.random(), ji[0]))
+        order = [x for x in order if all([x[0], i] in order[:order.index(x)] for i in range(x[1]))]
+        cut = rng.randint(0, len(order))
+        cases.append({'kind': 'two', 'peers': True, 'tag': 'symmetric-client-peers', 'npeers': k, 'calls': calls, 'deliver': order[:cut]})
+    return cases
+
+
 def two_cases(ctx):
     cases = two_cases_plain(ctx)
     n_directed = len(two_directed_cases())
@@ -2638,7 +3415,7 @@ def two_cases(ctx):
             out.append(dict(c, backend='node'))
         else:
             out.append(dict(c, backend='node') if i % 3 != 0 else c)
-    return out
+    return out + sym_cases(ctx) + peers_cases(ctx)
 
 
 def two_cases_plain(ctx):
@@ -2688,7 +3465,11 @@ def run(ctx):
                 'return in any order / raise; firewalls on both ends; both byte streams cut per scenario: whole, half, 1 byte, '
                 'before / inside / after a delimiter, across two packets) executed by `cvdriver node2` = CV.Node.n2_stepK and on real '
                 'endpoints - bare Protocol objects, and Node + Server + Client components (sends through Client.send and '
-                'through `remote` events) - observation streams compared step by step + residue')
+                'through `remote` events) - observation streams compared step by step + residue; symmetric: both ends of one '
+                'connection originate 1-4 calls each (ids allocated independently, same ids in flight in both directions), '
+                'send and receive firewalls on both ends, each direction one byte stream carrying calls and answers, cut per '
+                'scenario, executed by `cvdriver node2` = CV.Node.ns_step and on both real backends; client-peers: a real Node with '
+                '2-3 Node.add peers whose servers have calls of their own in flight (judged on the implementation only)')
     ctx.trusted += ['json.loads / json.dumps / UTF-8 decoding are an oracle of the model (table filled from the real functions)',
                     'JSON text never ends in "~" and a proper prefix of a dumped object is not JSON (hypotheses of '
                     'C19.packets_exact; exercised by the cut generators)',
